@@ -285,14 +285,16 @@ func dominatingCountTest(use ssa.Instruction, countFns map[*ssa.Function]bool, n
 		if !ok {
 			continue
 		}
-		cmp, ok := ifi.Cond.(*ssa.BinOp)
+		cmp, at, neg, ok := countComparison(ifi.Cond, countFns, 0)
 		if !ok {
 			continue
 		}
-		call, ok := cmp.X.(*ssa.Call)
-		if !ok || call.Common().StaticCallee() == nil || !countFns[call.Common().StaticCallee()] {
-			continue
+		succs := b.Succs
+		if neg {
+			succs = []*ssa.BasicBlock{b.Succs[1], b.Succs[0]}
 		}
+		b := struct{ Succs []*ssa.BasicBlock }{succs}
+		call := at
 		k, ok := constInt(cmp.Y)
 		if !ok {
 			continue
@@ -325,7 +327,7 @@ func dominatingCountTest(use ssa.Instruction, countFns map[*ssa.Function]bool, n
 		}
 		// no state change between the test and the use is assumed within one critical section:
 		// require that the call computing the count is in the same block as the If (fresh value)
-		if call.Block() != b {
+		if call.Block() != ifi.Block() {
 			continue
 		}
 		if okSucc == use.Block() || okSucc.Dominates(use.Block()) {
@@ -333,4 +335,39 @@ func dominatingCountTest(use ssa.Instruction, countFns map[*ssa.Function]bool, n
 		}
 	}
 	return false
+}
+
+// countComparison reads a branch condition as "count OP constant": the comparison itself, its
+// negation, or a call of a loop-free bool helper that returns one of these. at is the instruction
+// of the branching function that computes it (the count call or the helper call).
+func countComparison(cond ssa.Value, countFns map[*ssa.Function]bool, depth int) (cmp *ssa.BinOp, at ssa.Instruction, neg bool, ok bool) {
+	if depth > 2 {
+		return nil, nil, false, false
+	}
+	switch x := cond.(type) {
+	case *ssa.BinOp:
+		call, isCall := x.X.(*ssa.Call)
+		if !isCall || call.Common().StaticCallee() == nil || !countFns[call.Common().StaticCallee()] {
+			return nil, nil, false, false
+		}
+		return x, call, false, true
+	case *ssa.UnOp:
+		if x.Op != token.NOT {
+			return nil, nil, false, false
+		}
+		c, a, n, o := countComparison(x.X, countFns, depth+1)
+		return c, a, !n, o
+	case *ssa.Call:
+		h := x.Common().StaticCallee()
+		if h == nil || len(h.Blocks) != 1 || len(h.Params) > 1 {
+			return nil, nil, false, false
+		}
+		r, isRet := h.Blocks[0].Instrs[len(h.Blocks[0].Instrs)-1].(*ssa.Return)
+		if !isRet || len(r.Results) != 1 {
+			return nil, nil, false, false
+		}
+		c, _, n, o := countComparison(r.Results[0], countFns, depth+1)
+		return c, x, n, o
+	}
+	return nil, nil, false, false
 }
